@@ -165,6 +165,14 @@ prop("C16",
      note=NETWORLD)
 
 
+prop("C12",
+     title="Timeouts fire on time, keep the connection usable and orphan the late reply",
+     rule="paused virtual clock, so every time is exact to tokio's 1 ms timer granularity. Per case 1-4 cloned handles each run 1-6 operations concurrently: single operations and direct streaming searches, with no timeout or a timeout in {0,1,10,50,100,1000,60000,3600000} ms; the scripted server answers after delays chosen around the deadline (T/2, T-1, T, T+1, 2T+5, fixed values, never), for searches with one such gap before every item and before Done. Every client event (response, item, end, timeout, finish) is recorded with its virtual time and compared with the expected timeline: response iff it arrives strictly before the deadline, at its arrival time; otherwise Timeout exactly at the deadline; for searches the deadline restarts at each received item (all gaps < T => everything delivered however long the total); arrival exactly at the deadline is a tie and not judged. Afterwards (3 virtual hours later, every late reply has arrived): no returned value carries another operation's token, no ID is reserved (H2), the driver holds no routing entries (H3), the driver is still running, and after positioning the ID counter at 0 the next operation gets ID 1 and succeeds. non-trivial = cases in which at least one operation is expected to time out; distinct = distinct programs",
+     claim="held on every generated timing program of this run; counts of operations expected to time out, ties not judged and ID-reuse checks are in the evidence",
+     design="3/C12", technique="virtual-time trace checker: client events timestamped on a paused clock compared with the timeline computed from the scripted reply delays; H2/H3 invariant at the final quiescent point",
+     note=NETWORLD + "; 'on time' is a statement about virtual time")
+
+
 # ---- properties not (yet) claimed ----
 def _na():
     out = []
